@@ -31,3 +31,10 @@ VARIANTS += [
  dict(id='c08-p6ref6-property-forgets-reference', prop='C08', base='P6-REF6', expect='C08-D4', file='scared/analysis/base.py',
       old="        return self._last_mark - self._batches_processed[0]\n", new="        return self._last_mark\n"),
 ]
+
+VARIANTS += [
+ dict(id='c08-created-with-one-column', prop='C08', expect='C08-D1', file='scared/analysis/base.py',
+      old="self.convergence_traces = _np.empty(self.scores.shape + (0, ), dtype=self.precision)", new="self.convergence_traces = _np.empty(self.scores.shape + (1, ), dtype=self.precision)"),
+ dict(id='c08-silent-created-zeros-no-column', prop='C08', kind='silent', file='scared/analysis/base.py',
+      old="self.convergence_traces = _np.empty(self.scores.shape + (0, ), dtype=self.precision)", new="self.convergence_traces = _np.zeros((*self.scores.shape, 0), dtype=self.precision)"),
+]
